@@ -42,7 +42,7 @@ deriving DecidableEq, Repr
 inductive Out (α : Type) where
   | ok (a : α)
   | outside (why : String)
-deriving Repr
+deriving Repr, DecidableEq
 
 instance : Monad Out where
   pure := .ok
@@ -61,8 +61,14 @@ def sOptStr : Str := ['O', 'p', 't', 'i', 'o', 'n', 'a', 'l', '[', 's', 't', 'r'
 def simpleTypes : List Str := [['i', 'n', 't'], ['f', 'l', 'o', 'a', 't'], ['c', 'o', 'm', 'p', 'l', 'e', 'x'], ['s', 't', 'r'], ['b', 'o', 'o', 'l']]
 /-- `DEFAULTS_TO_VARIANTS`, in the tuple's order -/
 def announceVariants : List Str := [
-  "defaults to ".toList, "defaults to\n".toList, "Default value is ".toList, "Default:".toList,
-  "defaults\n to ".toList, "defaults\n to\n".toList, "Default value\n is ".toList, "Defaults\n            to".toList]
+  ['d', 'e', 'f', 'a', 'u', 'l', 't', 's', ' ', 't', 'o', ' '],
+  ['d', 'e', 'f', 'a', 'u', 'l', 't', 's', ' ', 't', 'o', '\n'],
+  ['D', 'e', 'f', 'a', 'u', 'l', 't', ' ', 'v', 'a', 'l', 'u', 'e', ' ', 'i', 's', ' '],
+  ['D', 'e', 'f', 'a', 'u', 'l', 't', ':'],
+  ['d', 'e', 'f', 'a', 'u', 'l', 't', 's', '\n', ' ', 't', 'o', ' '],
+  ['d', 'e', 'f', 'a', 'u', 'l', 't', 's', '\n', ' ', 't', 'o', '\n'],
+  ['D', 'e', 'f', 'a', 'u', 'l', 't', ' ', 'v', 'a', 'l', 'u', 'e', '\n', ' ', 'i', 's', ' '],
+  ['D', 'e', 'f', 'a', 'u', 'l', 't', 's', '\n', ' ', ' ', ' ', ' ', ' ', ' ', ' ', ' ', ' ', ' ', ' ', ' ', 't', 'o']]
 
 /-! ### value rendering -/
 def renderVal : Default → Str
@@ -136,7 +142,7 @@ def takeDefault : Nat → Str → Str
       let par' := if c == '{' || c == '[' || c == '(' || c == ')' || c == ']' || c == '}' then par + 1 else par
       c :: takeDefault par' cs
 
-def parseNat (s : Str) : Nat := s.foldl (fun acc c => acc * 10 + (c.toNat - '0'.toNat)) 0
+def parseNat (s : Str) : Nat := Nat.ofDigitChars 10 s 0
 
 /-- a decimal literal `[-+]?D+.D+` whose text is assumed to be `repr(float(text))` (generator invariant, checked there) -/
 def isFloatText (s : Str) : Bool :=
